@@ -15,6 +15,7 @@ Section ExpInd.
 Variable P : exp -> Prop.
 Hypothesis Hnil : P ENil. Hypothesis Htrue : P ETrue. Hypothesis Hfalse : P EFalse. Hypothesis Hva : P EVararg.
 Hypothesis Hnum : forall s, P (ENum s). Hypothesis Hstr : forall s, P (EStr s). Hypothesis Hname : forall n, P (EName n).
+Hypothesis Hbrk : forall n b, P (EBrk n b).
 Hypothesis Hfield : forall p n, P p -> P (EField p n).
 Hypothesis Hindex : forall p k, P p -> P k -> P (EIndex p k).
 Hypothesis Hcall : forall f sg args, P f -> Forall P args -> P (ECall f sg args).
@@ -33,7 +34,7 @@ Fixpoint exp_ind' (e : exp) : P e :=
   let all := fix all (l : list exp) : Forall P l := match l with [] => Forall_nil P | x :: r => Forall_cons x (exp_ind' x) (all r) end in
   match e with
   | ENil => Hnil | ETrue => Htrue | EFalse => Hfalse | EVararg => Hva
-  | ENum s => Hnum s | EStr s => Hstr s | EName n => Hname n
+  | ENum s => Hnum s | EStr s => Hstr s | EName n => Hname n | EBrk n b => Hbrk n b
   | EField p n => Hfield p n (exp_ind' p)
   | EIndex p k => Hindex p k (exp_ind' p) (exp_ind' k)
   | ECall f sg args => Hcall f sg args (exp_ind' f) (all args)
